@@ -1,7 +1,7 @@
 SPECIFICATION Spec
 CONSTANTS
-  MaxCand = 3
-  MaxRank = 2
+  MaxCand = 2
+  MaxRank = 3
 INVARIANT OnlyRemove
 INVARIANT RoundWithinFreeSlots
 INVARIANT DemeLimitHolds
